@@ -944,7 +944,7 @@ func run(c *core.Ctx) {
 		execCase(c, cs, true)
 	}
 	la, ra := listAlphabet(5), ringAlphabet(4)
-	every := c.N(24, 2, 1) // of the pairs, every n-th goes to the model as well
+	every := c.N(32, 2, 1) // of the pairs, every n-th goes to the model as well
 	k := 0
 	for _, x := range la {
 		execCase(c, Case{"list", cat(listPrefix, x)}, true)
@@ -964,10 +964,10 @@ func run(c *core.Ctx) {
 	c.Note(fmt.Sprintf("exhaustive: after a fixed prefix (2 lists, live/foreign/removed/zero/nil handles; 2 rings + zero Ring + nil) "+
 		"every operation and every pair of operations: %d list ops, %d ring ops; all run in lock-step against the standard library, "+
 		"every %d-th pair also evaluated by the Coq model; plus random histories", len(la), len(ra), every))
-	for i := c.N(700, 12000, 20000); i > 0; i-- {
+	for i := c.N(500, 12000, 20000); i > 0; i-- {
 		execCase(c, Case{"list", genList(c.Rng, 4+c.Rng.Size(c.N(26, 60, 80)))}, true)
 	}
-	for i := c.N(500, 8000, 20000); i > 0; i-- {
+	for i := c.N(400, 8000, 20000); i > 0; i-- {
 		execCase(c, Case{"ring", genRing(c.Rng, 3+c.Rng.Size(c.N(16, 40, 60)))}, true)
 	}
 	runBig(c)
